@@ -21,3 +21,25 @@ Section Paths.
       end
     end.
 End Paths.
+
+(* breadth-first search for a reachable history-free state violating [safe]; returns an action list reaching it *)
+Section Find.
+  Variable P : prog.
+  Variable wc : bool.
+  Variable safe : mstate -> bool.
+
+  Fixpoint find_unsafe (fuel : nat) (todo : list (mstate * list action)) (seen : list mstate) (count : nat)
+    : option (nat * option (list action)) :=
+    match fuel with
+    | O => None
+    | S f =>
+      match todo with
+      | [] => Some (count, None)
+      | (s, p) :: rest =>
+        if memb s seen then find_unsafe f rest seen count
+        else if negb (safe s) then Some (S count, Some p)
+             else let succ := map (fun a => (astep P a s, p ++ [a])) (enabled wc s) in
+                  find_unsafe f (rest ++ succ) (s :: seen) (S count)
+      end
+    end.
+End Find.
